@@ -4,6 +4,8 @@ spec: Spec/Xml.lean).
 -/
 import PdfVerif.Lemmas.XmlDoc
 import PdfVerif.Lemmas.Format
+import PdfVerif.Lemmas.XmlInj
+import PdfVerif.Lemmas.ConvertCodec
 
 namespace PdfVerif.Props.C11
 open PdfVerif PdfVerif.Convert PdfVerif.Xml
@@ -35,6 +37,67 @@ example : sinkText (textDocWrites
                         .figure ['"'] [] [.char [] [] [] [] [] ['&']]], none⟩])
     = ['<', 'a', '\n', '\n', '&', '\x0c'] := by decide
 
+/-! ### every `showpageno` choice, and raw glyph mode (`laparams=None`) -/
+
+/-- For every tree and BOTH `showpageno` choices: what a text sink receives from `TextConverter` = per page the
+optional `Page <id>` header, the in-order text of the hierarchy, one form feed.  The header is the template
+regenerated from `receive_layout`; the translator checks that it is written under `if self.showpageno:` before
+`render(ltpage)`. -/
+theorem C11_text_pageno (showpageno : Bool) (ps : List Page) :
+    sinkText (textDocWritesPn showpageno ps) = specTextPn showpageno ps := by
+  induction ps with
+  | nil => rfl
+  | cons p ps ih =>
+    simp only [sinkText, textDocWritesPn, specTextPn, List.flatMap_cons, List.flatten_append] at ih ⊢
+    rw [ih]
+    cases showpageno <;>
+      simp [textPageWritesPn, specTextPage, specPageHeader, text_items, Gen.ConvertXml.t_text_page_end,
+        Gen.ConvertXml.t_text_page_no]
+
+/-- without `showpageno` (every path of `high_level`) this is the output `C11_text` speaks about -/
+theorem C11_text_pageno_off (ps : List Page) :
+    textDocWritesPn false ps = textDocWrites ps ∧ specTextPn false ps = specText ps := by
+  constructor
+  · have h : textPageWritesPn false = textPageWrites := by
+      funext p; simp [textPageWritesPn, textPageWrites]
+    simp [textDocWritesPn, textDocWrites, h]
+  · have h : (fun p => specPageHeader false p ++ specTextPage p) = specTextPage := by
+      funext p; simp [specPageHeader]
+    simp [specTextPn, specText, h]
+
+mutual
+theorem raw_item (i : Item) (h : noBox i = true) : specTextItem i = glyphText i := by
+  cases i <;> simp_all [noBox, specTextItem, glyphText, raw_items]
+theorem raw_items (is : List Item) (h : noBoxL is = true) : specTextL is = glyphTextL is := by
+  cases is with
+  | nil => rfl
+  | cons i is =>
+    simp only [noBoxL, Bool.and_eq_true] at h
+    simp [specTextL, glyphTextL, raw_item i h.1, raw_items is h.2]
+end
+
+/-- Raw glyph mode (`laparams=None`: no layout analysis, so no text box anywhere in the tree): the output is the
+glyph texts in order and the form feed per page (after the optional header) - no character is added. -/
+theorem C11_text_raw (showpageno : Bool) (ps : List Page) (h : ∀ p ∈ ps, noBoxL p.kids = true) :
+    sinkText (textDocWritesPn showpageno ps) =
+      ps.flatMap (fun p => specPageHeader showpageno p ++ glyphTextL p.kids ++ ['\x0c']) := by
+  rw [C11_text_pageno]
+  induction ps with
+  | nil => rfl
+  | cons p ps ih =>
+    simp only [specTextPn, List.flatMap_cons] at ih ⊢
+    rw [ih (fun q hq => h q (by simp [hq]))]
+    simp [specTextPage, raw_items p.kids (h p (by simp))]
+
+example : sinkText (textDocWritesPn true
+    [⟨['7'], [], ['0'], [.textbox ['0'] [] false [.textline [] [.char [] [] [] [] [] ['a'], .anno ['\n']]]], none⟩,
+     ⟨['8'], [], ['0'], [.char [] [] [] [] [] ['b'], .figure [] [] [.char [] [] [] [] [] ['c']]], none⟩])
+    = ['P', 'a', 'g', 'e', ' ', '7', '\n', 'a', '\n', '\n', '\x0c', 'P', 'a', 'g', 'e', ' ', '8', '\n', 'b', 'c', '\x0c'] := by
+  decide
+
+example : noBoxL [.char [] [] [] [] [] ['b'], .figure [] [] [.char [] [] [] [] [] ['c'], .image [] [] none]] = true ∧
+    noBoxL [.figure [] [] [.textbox [] [] false []]] = false := by decide
+
 /-! ## Sinks: a binary sink decoded with its codec = the characters a text sink receives -/
 
 /-- For every codec (an incremental encoder as a state machine, with ANY decoder that inverts
@@ -63,6 +126,17 @@ theorem C11_sink_text {σ : Type} (c : Codec σ) (decode : Bytes → Option Str)
   rw [C11_text] at h
   exact h
 
+/-- the same for a converter constructed with `showpageno` -/
+theorem C11_sink_text_pageno {σ : Type} (c : Codec σ) (decode : Bytes → Option Str)
+    (hinv : ∀ s st bs, c.encodePiece false c.init s = some (st, bs) → decode bs = some s)
+    (showpageno : Bool) (ps : List Page) (hrep : (c.encodePiece false c.init (specTextPn showpageno ps)).isSome) :
+    ∃ bs, sinkBinary c true (textDocWritesPn showpageno ps) = some bs ∧
+      decode bs = some (specTextPn showpageno ps) := by
+  have h := C11_sink c decode hinv true (textDocWritesPn showpageno ps)
+    (by have := C11_text_pageno showpageno ps; simp only [sinkText] at this; rw [this]; exact hrep)
+  rw [C11_text_pageno] at h
+  exact h
+
 /-- xml output into a binary sink, decoded = the characters a text sink receives for the same header -/
 theorem C11_sink_xml {σ : Type} (c : Codec σ) (decode : Bytes → Option Str)
     (hinv : ∀ s st bs, c.encodePiece false c.init s = some (st, bs) → decode bs = some s)
@@ -81,6 +155,54 @@ def toyCodec : Codec Bool where
     else none
 
 example : sinkBinary toyCodec false [['a'], ['<', 'b']] = some [0xFE, 0xFF, 0, 97, 0, 60, 0, 98] := by decide
+
+/-! ### a concrete stateful encoder: `utf-32` (pending byte-order mark), no hypothesis left
+
+`utf32Codec` (Model/ConvertCodec.lean) is the state machine of `codecs.getincrementalencoder("utf-32")`: the
+byte-order mark before the first character, 4 little-endian bytes per character.  The driver op `textbin` /
+`xmlbin` compares the model's sink with the real `BytesIO` contents byte by byte on every run, `utf32dec` runs
+the decoder below on the implementation's bytes. -/
+
+/-- For EVERY sequence of writes and both error policies the `utf-32` binary sink receives bytes that decode
+(one byte-order mark, then the code points) to exactly the concatenation of the writes: concatenated writes
+decode to concatenated text, however the output is cut into writes. -/
+theorem C11_sink_utf32 (ignore : Bool) (writes : List Str) :
+    ∃ bs, sinkBinary utf32Codec ignore writes = some bs ∧ utf32Decode bs = some (sinkText writes) :=
+  C11_sink utf32Codec utf32Decode utf32_inv ignore writes
+    (encodePiece_total utf32Codec (fun _ _ => rfl) false _ _)
+
+/-- text output, `utf-32` binary sink, every tree and `showpageno` choice: decodes to the specified text -/
+theorem C11_sink_utf32_text (showpageno : Bool) (ps : List Page) :
+    ∃ bs, sinkBinary utf32Codec true (textDocWritesPn showpageno ps) = some bs ∧
+      utf32Decode bs = some (specTextPn showpageno ps) := by
+  have h := C11_sink_utf32 true (textDocWritesPn showpageno ps)
+  rwa [C11_text_pageno] at h
+
+/-- the same for `utf-16`: byte-order mark once, little-endian code units, surrogate pairs for astral
+characters - a variable-length encoding whose pieces may be cut anywhere between characters -/
+theorem C11_sink_utf16 (ignore : Bool) (writes : List Str) :
+    ∃ bs, sinkBinary (utf16Codec true false) ignore writes = some bs ∧ utf16Decode bs = some (sinkText writes) :=
+  C11_sink (utf16Codec true false) utf16Decode utf16_inv ignore writes
+    (encodePiece_total (utf16Codec true false) (fun _ _ => rfl) false _ _)
+
+theorem C11_sink_utf16_text (showpageno : Bool) (ps : List Page) :
+    ∃ bs, sinkBinary (utf16Codec true false) true (textDocWritesPn showpageno ps) = some bs ∧
+      utf16Decode bs = some (specTextPn showpageno ps) := by
+  have h := C11_sink_utf16 true (textDocWritesPn showpageno ps)
+  rwa [C11_text_pageno] at h
+
+example : sinkBinary (utf16Codec true false) false [['a'], [], [Char.ofNat 0x1F600]] =
+    some [0xFF, 0xFE, 97, 0, 0x3D, 0xD8, 0x00, 0xDE] := by decide
+
+example : utf16Decode [0xFF, 0xFE, 0x3D, 0xD8, 0x00, 0xDE] = some [Char.ofNat 0x1F600] ∧
+    utf16Decode [0xFF, 0xFE, 0x3D, 0xD8] = none ∧ utf16Decode [0xFF, 0xFE, 0x00, 0xDE] = none ∧
+    utf16Decode [97, 0] = none := by decide
+
+example : sinkBinary utf32Codec false [['a'], [], ['b']] =
+    some [0xFF, 0xFE, 0, 0, 97, 0, 0, 0, 98, 0, 0, 0] := by decide
+
+example : utf32Decode [0xFF, 0xFE, 0, 0, 0x00, 0xF6, 0x01, 0] = some [Char.ofNat 0x1F600] ∧
+    utf32Decode [97, 0, 0, 0] = none ∧ utf32Decode [0xFF, 0xFE, 0, 0, 0, 0xD8, 0, 0] = none := by decide
 
 /-! ## Escaping -/
 
@@ -118,6 +240,38 @@ theorem esc_unesc_text (strip : Bool) (s : Str) (hs : ∀ c ∈ maybeStrip strip
   have := unesc_flatMap_textChar (maybeStrip strip s) hs []
   simp only [List.append_nil] at this
   simp [unescape, writeText_eq, this, unescGo]
+
+/-! ### the escaping layer alone, for EVERY string
+
+`unescAny` replaces references and does nothing else (no XML `Char` check, no normalisation).  For every string
+of Unicode scalar values - C0 controls, U+FFFE/U+FFFF, astral characters included - what `enc`, `attr` and
+`write_text` produce reads back as the (optionally stripped) string: escaping never loses or merges anything,
+independently of whether XML 1.0 can carry the characters (that is what `esc_unesc_*` + `strip_legal` add).
+(Python `str`s with lone surrogates are not sequences of scalar values; outside the alphabet, see docs.) -/
+
+theorem esc_roundtrip_all (s : Str) : unescAny (enc s) = some s := by
+  simpa [unescAny, enc] using unescAny_flatMap encChar unescAny_encChar s
+
+theorem attr_roundtrip_all (strip : Bool) (s : Str) : unescAny (attr strip s) = some (maybeStrip strip s) := by
+  simpa [unescAny, attr_eq] using unescAny_flatMap attrChar unescAny_attrChar (maybeStrip strip s)
+
+theorem text_roundtrip_all (strip : Bool) (s : Str) : unescAny (writeText strip s) = some (maybeStrip strip s) := by
+  simpa [unescAny, writeText_eq] using unescAny_flatMap textChar unescAny_textChar (maybeStrip strip s)
+
+/-- hence escaping is injective: two names / texts with the same escaped form are the same after stripping -/
+theorem esc_injective_all (strip : Bool) (s t : Str) :
+    (attr strip s = attr strip t → maybeStrip strip s = maybeStrip strip t) ∧
+    (writeText strip s = writeText strip t → maybeStrip strip s = maybeStrip strip t) ∧
+    (enc s = enc t → s = t) := by
+  refine ⟨fun h => ?_, fun h => ?_, fun h => ?_⟩
+  · have := attr_roundtrip_all strip s; rw [h, attr_roundtrip_all] at this; exact (Option.some.inj this).symm
+  · have := text_roundtrip_all strip s; rw [h, text_roundtrip_all] at this; exact (Option.some.inj this).symm
+  · have := esc_roundtrip_all s; rw [h, esc_roundtrip_all] at this; exact (Option.some.inj this).symm
+
+example : unescAny (attr false ['\x00', '&', 'a', 'm', 'p', ';', '\t', Char.ofNat 0xFFFE, Char.ofNat 0x1F600, '\x1b']) =
+    some ['\x00', '&', 'a', 'm', 'p', ';', '\t', Char.ofNat 0xFFFE, Char.ofNat 0x1F600, '\x1b'] := by decide
+
+example : unescape true (attr false ['\x00']) = none := by decide   -- XML itself cannot carry it: strip_control
 
 /-- with strip_control every C0 control character other than TAB/LF/CR is gone, so the hypothesis of the
 two theorems above holds for every string of XML characters and C0 controls -/
@@ -180,6 +334,82 @@ example : parseXML (sinkText (xmlDocWrites true (some ['u', 't', 'f', '-', '8'])
     simp only [PageOk, demoPage, ItemOk, ItemsOk, GroupsOk, GroupOk, Plain, Legal, TextPlain]
     decide
 
+/-! ### The XML output determines the hierarchy (injectivity of the rendering)
+
+`stripPage strip` is the tree with `CONTROL.sub` applied to the strings the converter strips (font name, glyph
+text, figure name, exported image name) - the identity without strip_control.  Numbers are the formatted fields,
+so "equal" is equality up to number formatting. -/
+
+/-- the skeleton with strip_control is the skeleton of the stripped tree -/
+theorem C11_skeleton_strip (strip : Bool) (ps : List Page) :
+    docSkeleton strip ps = docSkeleton false (ps.map (stripPage strip)) := docSkeleton_strip strip ps
+
+/-- Two hierarchies with the same skeleton are the same hierarchy (after the optional stripping): element
+names, attributes, character data and nesting leave nothing of the tree undetermined. -/
+theorem C11_skeleton_injective (strip : Bool) (ps qs : List Page)
+    (h : docSkeleton strip ps = docSkeleton strip qs) :
+    ps.map (stripPage strip) = qs.map (stripPage strip) := by
+  rw [docSkeleton_strip strip ps, docSkeleton_strip strip qs] at h
+  exact docSkeleton_inj _ _ h
+
+/-- **Faithful = injective.** If `XMLConverter` writes the same characters for two hierarchies in the domain
+(whatever the declared codecs), the hierarchies are equal after the optional CONTROL stripping; without
+strip_control they are equal.  Together with `C11_xml_wf`: a reader recovers exactly one tree from the output. -/
+theorem C11_xml_injective (strip : Bool) (codec codec' : Option Str) (ps qs : List Page)
+    (hc : CodecNameOk codec) (hc' : CodecNameOk codec')
+    (hp : ∀ p ∈ ps, PageOk strip p) (hq : ∀ p ∈ qs, PageOk strip p)
+    (h : sinkText (xmlDocWrites strip codec ps) = sinkText (xmlDocWrites strip codec' qs)) :
+    ps.map (stripPage strip) = qs.map (stripPage strip) := by
+  have h1 := C11_xml_wf strip codec ps hc hp
+  have h2 := C11_xml_wf strip codec' qs hc' hq
+  rw [h, h2] at h1
+  exact (C11_skeleton_injective strip qs ps (Option.some.inj h1)).symm
+
+theorem C11_xml_injective_nostrip (codec codec' : Option Str) (ps qs : List Page)
+    (hc : CodecNameOk codec) (hc' : CodecNameOk codec')
+    (hp : ∀ p ∈ ps, PageOk false p) (hq : ∀ p ∈ qs, PageOk false p)
+    (h : sinkText (xmlDocWrites false codec ps) = sinkText (xmlDocWrites false codec' qs)) : ps = qs := by
+  have := C11_xml_injective false codec codec' ps qs hc hc' hp hq h
+  have e : ∀ l : List Page, l.map (stripPage false) = l := fun l => by
+    induction l with
+    | nil => rfl
+    | cons p l ih => simp [stripPage_false, ih]
+  rwa [e, e] at this
+
+/-- non-vacuity: two pages that differ in one LTAnno (space / line break) - both in the domain - cannot have the
+same output; with strip_control two glyph texts that differ only in a stripped control character are identified -/
+def pgA : Page := ⟨['1'], ['0'], ['0'], [.anno [' ']], none⟩
+def pgB : Page := ⟨['1'], ['0'], ['0'], [.anno ['\n']], none⟩
+
+example : sinkText (xmlDocWrites false none [pgA]) ≠ sinkText (xmlDocWrites false none [pgB]) := by
+  intro h
+  have := C11_xml_injective_nostrip none none [pgA] [pgB] trivial trivial
+    (by intro p hp; simp only [List.mem_singleton] at hp; subst hp
+        simp only [PageOk, pgA, ItemOk, ItemsOk, Plain, TextPlain]; decide)
+    (by intro p hp; simp only [List.mem_singleton] at hp; subst hp
+        simp only [PageOk, pgB, ItemOk, ItemsOk, Plain, TextPlain]; decide) h
+  simp [pgA, pgB] at this
+
+example : stripPage true ⟨['1'], ['0'], ['0'], [.char ['F'] [] [] [] [] ['a', '\x01']], none⟩ =
+    stripPage true ⟨['1'], ['0'], ['0'], [.char ['F', '\x02'] [] [] [] [] ['a']], none⟩ := by
+  simp [stripPage, stripItemL, stripItem]; decide
+
+/-- end to end through a stateful binary sink: the bytes `XMLConverter` writes into a `utf-32` sink, decoded and
+read by the XML reader, are the skeleton of the hierarchy -/
+theorem C11_xml_wf_utf32 (strip : Bool) (codec : Option Str) (ps : List Page) (hc : CodecNameOk codec)
+    (h : ∀ p ∈ ps, PageOk strip p) :
+    ∃ bs, sinkBinary utf32Codec false (xmlDocWrites strip codec ps) = some bs ∧
+      (utf32Decode bs).bind parseXML = some (docSkeleton strip ps) := by
+  obtain ⟨bs, h1, h2⟩ := C11_sink_utf32 false (xmlDocWrites strip codec ps)
+  exact ⟨bs, h1, by rw [h2]; exact C11_xml_wf strip codec ps hc h⟩
+
+theorem C11_xml_wf_utf16 (strip : Bool) (codec : Option Str) (ps : List Page) (hc : CodecNameOk codec)
+    (h : ∀ p ∈ ps, PageOk strip p) :
+    ∃ bs, sinkBinary (utf16Codec true false) false (xmlDocWrites strip codec ps) = some bs ∧
+      (utf16Decode bs).bind parseXML = some (docSkeleton strip ps) := by
+  obtain ⟨bs, h1, h2⟩ := C11_sink_utf16 false (xmlDocWrites strip codec ps)
+  exact ⟨bs, h1, by rw [h2]; exact C11_xml_wf strip codec ps hc h⟩
+
 /-- the escapes matter: the same figure name written raw (the pinned behaviour) is rejected by the reader -/
 example : parseXML (['<', 'f', ' ', 'n', '=', '"'] ++ ['a', '"', '<'] ++ ['"', '/', '>']) = none := by decide
 
@@ -196,6 +426,44 @@ theorem C11_fmt_d_plain (x : SRat) : Plain (fmtD x) := (fmtD_num x).plain
 
 theorem C11_bbox2str_plain (x0 y0 x1 y1 : SRat) : Plain (Gen.ConvertFmt.bbox2str x0 y0 x1 y1) :=
   (bbox2str_num x0 y0 x1 y1).plain
+
+/-- `LTCurve.get_pts` (regenerated from layout.py: `",".join("%.3f,%.3f" % p for p in self.pts)`) is `Plain`
+for every point list -/
+theorem C11_get_pts_plain (pts : List (SRat × SRat)) : Plain (Gen.ConvertFmt.get_pts pts) :=
+  (get_pts_num pts).plain
+
+/-- every `<line>` / `<rect>` / `<curve>` element is in the domain of `C11_xml_wf`, whatever its numbers and points
+are: no hypothesis left -/
+theorem C11_path_items_ok (strip : Bool) (lw a b c d : SRat) (pts : List (SRat × SRat)) :
+    ItemOk strip (.line (fmtD lw) (Gen.ConvertFmt.bbox2str a b c d)) ∧
+    ItemOk strip (.rect (fmtD lw) (Gen.ConvertFmt.bbox2str a b c d)) ∧
+    ItemOk strip (.curve (fmtD lw) (Gen.ConvertFmt.bbox2str a b c d) (Gen.ConvertFmt.get_pts pts)) :=
+  ⟨⟨C11_fmt_d_plain lw, C11_bbox2str_plain a b c d⟩, ⟨C11_fmt_d_plain lw, C11_bbox2str_plain a b c d⟩,
+   ⟨C11_fmt_d_plain lw, C11_bbox2str_plain a b c d, C11_get_pts_plain pts⟩⟩
+
+example : Gen.ConvertFmt.get_pts [((false, 1), (true, 5/2)), ((false, 0), (false, 1/8))] =
+    "1.000,-2.500,0.000,0.125".toList := by decide +kernel
+
+/-- every name a `PDFColorSpace` can carry (table regenerated from pdfcolor.py / pdfinterp.get_colorspace; the
+driver op `csname` checks every `ncs.name` met at run time against it) is `Plain` -/
+theorem C11_colourspace_plain : ∀ n ∈ Gen.ConvertFmt.colourSpaceNames, Plain n := by
+  have h : ∀ n ∈ Gen.ConvertFmt.colourSpaceNames, ∀ c ∈ n, plainChar c = true := by decide
+  exact fun n hn c hc => h n hn c hc
+
+/-- a glyph: with the numbers from the formatters and the colour-space name from the table, what remains to be
+assumed is the colour value string (`str(ncolor)`: Python float repr, not modelled) and XML-legal document strings -/
+theorem C11_char_item_ok (strip : Bool) (a b c d sz : SRat) (font cs nc text : Str)
+    (hcs : cs ∈ Gen.ConvertFmt.colourSpaceNames) (hnc : Plain nc)
+    (hf : Legal (maybeStrip strip font)) (ht : Legal (maybeStrip strip text)) :
+    ItemOk strip (.char font (Gen.ConvertFmt.bbox2str a b c d) cs nc (fmtF3 sz) text) :=
+  ⟨hf, C11_bbox2str_plain a b c d, C11_colourspace_plain cs hcs, hnc, C11_fmt_f3_plain sz, ht⟩
+
+/-- the attributes of `<page>` (id and rotate are ints written with %s / %d) are `Plain` for all numbers -/
+theorem C11_page_fields_plain (pageid rotate a b c d : SRat) :
+    Plain (fmtD pageid) ∧ Plain (Gen.ConvertFmt.bbox2str a b c d) ∧ Plain (fmtD rotate) :=
+  ⟨C11_fmt_d_plain pageid, C11_bbox2str_plain a b c d, C11_fmt_d_plain rotate⟩
+
+example : ['D', 'e', 'v', 'i', 'c', 'e', 'R', 'G', 'B'] ∈ Gen.ConvertFmt.colourSpaceNames := by decide
 
 /-- e.g. a curve and a glyph whose numeric fields come from the formatters are in the domain, for all numbers -/
 theorem C11_numeric_items_ok (strip : Bool) (lw a b c d sz : SRat) (pts font cs nc text : Str)
